@@ -19,7 +19,7 @@ LEVEL_NOTE = 'Trusts the step observer and the builder.'
 CFG = gen.Cfg(warm=4, facilities=True, nested="assembly", max_time=[40, 80])
 # arbitrary forests with arbitrary task assignment: only without workplaces (placement of nested
 # products outside the assembly form crashes, known finding D-PLC4 of C13)
-CFG_FREE = gen.Cfg(warm=3, facilities=True, nested="free", max_wps=0, max_time=[40, 80])
+CFG_FREE = gen.Cfg(warm=3, facilities=True, nested="free", max_wps=0, max_time=[40, 80], multi_parent=2)
 CFG_FLAT = gen.Cfg(warm=2, facilities=True, max_time=[40, 80])
 
 
